@@ -67,6 +67,8 @@ for d in sorted(os.listdir(os.path.join(V, "seeded"))):
         meta["caught_by"] = sorted(set(meta["caught_by"]) | set(meta["first_pass"]["caught_by"]))
         meta["silent"] = sorted((set(meta["silent"]) | set(meta["first_pass"]["silent"])) - set(meta["caught_by"]))
         meta["checks_run_quick_tier"] = sorted(set(meta["caught_by"]) | set(meta["silent"]))
+    if os.path.exists(os.path.join(p, "verdict.txt")):
+        meta["verdict"] = open(os.path.join(p, "verdict.txt")).read().strip()
     json.dump(meta, open(os.path.join(p, "meta.json"), "w"), indent=1)
     ok = ("264 passed" in (ev.get("baseline") or "")) and ev.get("demo_clean_rc") == 0 and ev.get("demo_mutant_rc") == 1
     print(d, "CONFIRMED" if ok else "NOT-CONFIRMED", "caught_by=", meta["caught_by"], "target_caught=", prop in meta["caught_by"])
